@@ -192,7 +192,16 @@ func (w *World) BuildMsgs(a Act) (string, []sdk.Msg, error) {
 		return from, []sdk.Msg{&mhubtypes.MsgRequestBatchTx{Denom: a.S("denom"), Signer: w.N.AddrString(from), ChainId: a.S("chain")}}, nil
 	case "Claim":
 		by := a.S("by")
-		ev, err := w.BuildEvent(a.S("chain"), a.M("ev"))
+		evDesc := a.M("ev")
+		if evDesc.Has("ref") { // the k-th event the real external contract emitted
+			es := w.evmOf(a.S("chain"))
+			k := int(evDesc.I("ref"))
+			if es == nil || k < 1 || k > len(es.Log) {
+				return "", nil, fmt.Errorf("no such external event %d", k)
+			}
+			evDesc = jsonAct(es.Log[k-1])
+		}
+		ev, err := w.BuildEvent(a.S("chain"), evDesc)
 		if err != nil {
 			return "", nil, err
 		}
@@ -291,6 +300,13 @@ func (w *World) BuildMsgs(a Act) (string, []sdk.Msg, error) {
 	case "Price":
 		by := a.S("by")
 		pr := a.M("pr")
+		if a.Has("pr4") { // values given as 4 * price (the specification's integral representation)
+			pr = Act{}
+			for k, v := range a.M("pr4") {
+				q, _ := new(big.Int).SetString(asStr(v), 10)
+				pr[k] = sdk.NewDecFromBigInt(q).QuoInt64(4).String()
+			}
+		}
 		names := make([]string, 0, len(pr))
 		for k := range pr {
 			names = append(names, k)
@@ -406,6 +422,14 @@ func (w *World) Gov(a Act) Outcome {
 
 // Exec runs one scripted action and returns its outcome.
 func (w *World) Exec(a Act) Outcome {
+	o := w.exec(a)
+	if w.Evm != nil && w.Dead == "" {
+		w.rememberPublished()
+	}
+	return o
+}
+
+func (w *World) exec(a Act) Outcome {
 	w.stepNo++
 	switch a.S("k") {
 	case "Begin":
@@ -422,6 +446,37 @@ func (w *World) Exec(a Act) Outcome {
 		return w.Stake(a.S("val"), a.I("p"))
 	case "Gov":
 		return w.Gov(a)
+	case "EvmDeposit", "EvmUpdateValset", "EvmSubmitBatch", "EvmMine":
+		o, ev := w.ExecEvm(a)
+		o.Ev = ev
+		return o
+	case "BulkSend": // n identical sends, one transaction each (keeps bulk scenarios short in the script)
+		last := Outcome{Out: "ok"}
+		for i := int64(0); i < a.I("n"); i++ {
+			one := Act{}
+			for k, v := range a {
+				one[k] = v
+			}
+			one["k"] = "Send"
+			delete(one, "n")
+			w.stepNo--
+			last = w.exec(one)
+			if last.Out != "ok" {
+				return last
+			}
+		}
+		return last
+	case "Blocks": // n whole blocks without transactions
+		var o Outcome
+		for i := int64(0); i < a.I("n"); i++ {
+			if o = w.BeginBlock(1); o.Out != "ok" {
+				return o
+			}
+			if o, _, _ = w.EndBlock(); o.Out != "ok" {
+				return o
+			}
+		}
+		return Outcome{Out: "ok"}
 	case "ExtDeposit", "ExtExec", "ExtMine", "ExtSSExec", "Note":
 		// actions of the modelled external world: nothing happens on the hub
 		return Outcome{Out: "ok"}
